@@ -15,7 +15,8 @@ RULE = (
     "Date ranges: all ordered, equal and reversed pairs of a boundary date set x joiners {-, to, bis, until, between..and, von..bis, from..to}.  Clock ranges: hours 0-23 x 0-23 x minute variants "
     "{H:00-H:00, H:30-H:35, 'H-H' digits} x joiners x contexts {8.5.2018, tomorrow, monday, none, 31.12.2018, 28.2.2020, 30.4.2019}.  Oracle: start is A on the context day; if B is after A on that day the end is B that day; "
     "otherwise the end is B moved 12 hours (only when both written hours <= 12) or to the next day; always start < end <= start + 24h.  Reversed date pairs must not yield an inverted interval.  "
-    "Bounds: every spelling of the before/after patterns x X in {5pm, 17:30, 8.5.2018, monday}: exactly the stated side is set and equals X parsed alone.  "
+    "Date-time to date-time: all ordered pairs of a 30-element datetime set x joiners (forward -> that interval, reversed -> never inverted).  Part of day + range: 6 part-of-day words x hours 1-12 x 1-12 x "
+    "contexts (judged where the adjusted end is after the adjusted start).  Date written after the range: 24x24 x {tomorrow, on 8.5.2018}.  Bounds: every spelling of the before/after patterns and the words until/til/no later than x X in {5pm, 17:30, 8.5.2018, monday}: exactly the stated side is set and equals X parsed alone.  "
     "Non-trivial = clock pair needing a wrap, or any date pair/bound case; distinct = distinct (text, ts)."
 )
 ASSUMPTIONS = [
@@ -84,6 +85,8 @@ def plan(tier, seed):
             if neg:
                 s = "from" if side == "to" else "to"
             bounds.append((alt, s))
+    for w in ("until", "til", "no later than"):
+        bounds.append((w, "to"))  # the statement names 'before/until X'
     xs = ["5pm", "17:30", "8.5.2018", "monday", "tomorrow", "12.5."]
     joins_clock = JOINS if tier == "thorough" else ["-", " - ", "to", "bis", "between", "von"]
     variants = [("00", 0, 0), ("30-35", 30, 35), ("digits", 0, 0)]
@@ -109,6 +112,27 @@ def plan(tier, seed):
         for alt, side in bounds:
             for x in xs:
                 yield ("bound", alt + " " + x, x, side, alt, TS)
+        # date-time to date-time ranges: all ordered pairs (forward, equal, reversed) of a datetime set
+        dts = [(d, h, m) for d in DATES[:6] for (h, m) in ((8, 0), (9, 0), (9, 30), (18, 30), (19, 0))]
+        for a in dts:
+            for b in dts:
+                for j in ("-", "to", "bis", "until") if tier == "quick" else JOINS:
+                    ta = "{} {}:{:02d}".format(dstr(a[0], 0), a[1], a[2])
+                    tb = "{} {}:{:02d}".format(dstr(b[0], 0), b[1], b[2])
+                    yield ("dtdt", date_join(ta, tb, j) if j in JOINS else ta + " " + j + " " + tb, (a[0].year, a[0].month, a[0].day, a[1], a[2]), (b[0].year, b[0].month, b[0].day, b[1], b[2]), j, TS)
+        # part of day + clock range: the part of day moves hours below 12 into the afternoon (the code's convention for 'N in the afternoon')
+        for pod, pm in (("nachmittags", True), ("afternoon", True), ("abends", True), ("evening", True), ("morgens", False), ("vormittags", False)):
+            for ha in range(1, 13):
+                for hb in range(1, 13):
+                    for ctx in ("", "tomorrow ", "5.3.2020 "):
+                        yield ("podrange", "{}{} {}-{}".format(ctx, pod, ha, hb), (ha, hb), pm, ctx, TS)
+                        if tier == "thorough" or ctx == "":
+                            yield ("podrange", "{}{} {}:00 bis {}:00".format(ctx, pod, ha, hb), (ha, hb), pm, ctx, TS)
+        # the date written AFTER the clock range
+        for ha in range(24):
+            for hb in range(24):
+                for suffix, cname in ((" tomorrow", "tomorrow"), (" on 8.5.2018", "date")):
+                    yield ("clock_suffix", "{}:00-{}:00{}".format(ha, hb, suffix), (ha, 0), (hb, 0), cname, TS)
 
     space = {"dates": len(DATES), "date_pairs": len(DATES) ** 2, "joiners": len(JOINS), "hour_pairs": 576, "minute_variants": len(variants), "clock_joiners": len(joins_clock), "contexts": len(CONTEXTS), "bound_spellings": len(bounds), "bound_operands": len(xs)}
     return {"space": space, "cases": gen(), "chunk": 128, "hash_distinct": True}
@@ -177,6 +201,47 @@ def run_case(case):
         if not ok:
             sig["why"] = why
             out["v"] = [viol(sig, "{!r} at {} -> {} expected start {} end in {}".format(text, case[-1], fmt(got), A.isoformat(), [x.isoformat() for x in ends]), [A.isoformat()] + [x.isoformat() for x in ends], got)]
+        return out
+    if kind == "dtdt":
+        _, text, a, b, j, _ts = case
+        A = datetime(*a)
+        B = datetime(*b)
+        got = res_obs(parse(text, ts))
+        if A < B:
+            exp = ("I", T(*a), T(*b))
+            if got != exp:
+                why = "forward_range_rejected" if not (got is not None and got[0] == "I" and got[1] is not None and got[2] is not None) else "ends_differ"
+                return {"o": "dtdt:bad", "nt": True, "v": [viol({"kind": "datetime_range", "why": why, "joiner": j}, "{!r} -> {} expected {}".format(text, fmt(got), fmt(exp)), exp, got)]}
+            return {"o": "dtdt:ok", "nt": True}
+        if got is not None and got[0] == "I" and got[1] is not None and got[2] is not None and None not in got[1][1:4] and None not in got[2][1:4]:
+            if _dt(got[1]) > _dt(got[2]):
+                return {"o": "dtdt:inverted", "nt": True, "v": [viol({"kind": "datetime_range_inverted", "joiner": j}, "{!r} -> {} (start after end)".format(text, fmt(got)), None, got)]}
+        return {"o": "dtdt:reversed-ok", "nt": True}
+    if kind == "podrange":
+        _, text, (ha, hb), pm, ctx, _ts = case
+        adj = (lambda h: h + 12 if h < 12 else h) if pm else (lambda h: h)
+        ea, eb = adj(ha), adj(hb)
+        if not (ea < eb):
+            return {"o": "podrange:skip", "skip": "part-of-day range whose adjusted end is not after its adjusted start (no convention stated)", "nt": False}
+        got = res_obs(parse(text, ts, latent_time=False))
+        ok = got is not None and got[0] == "I" and got[1] is not None and got[2] is not None and got[1][4] == ea and got[2][4] == eb and (got[1][5] or 0) == 0 and (got[2][5] or 0) == 0
+        if ok and ctx:
+            ok = None not in got[1][1:4] and got[1][1:4] == got[2][1:4]
+        out = {"o": "podrange:" + ("ok" if ok else "bad"), "nt": True}
+        if not ok:
+            out["v"] = [viol({"kind": "pod_range", "pm": pm, "context": ctx.strip() or "none"}, "{!r} -> {} expected {}:00 - {}:00".format(text, fmt(got), ea, eb), (ea, eb), got)]
+        return out
+    if kind == "clock_suffix":
+        _, text, (ha, ma), (hb, mb), cname, _ts = case
+        got = res_obs(parse(text, ts))
+        day = ctx_day(cname, ts)
+        A = datetime(day.year, day.month, day.day, ha, ma)
+        B0 = datetime(day.year, day.month, day.day, hb, mb)
+        ends = [B0] if B0 > A else [B0 + timedelta(days=1)] + ([B0 + timedelta(hours=12)] if (ha <= 12 and hb <= 12 and B0 + timedelta(hours=12) > A) else [])
+        ok = got is not None and got[0] == "I" and got[1] is not None and got[2] is not None and None not in got[1][1:5] and None not in got[2][1:5] and _dt(got[1]) == A and _dt(got[2]) in ends
+        out = {"o": "clock_suffix:" + ("ok" if ok else "bad"), "nt": True}
+        if not ok:
+            out["v"] = [viol({"kind": "clock_range_date_after", "context": cname}, "{!r} -> {} expected start {} end in {}".format(text, fmt(got), A.isoformat(), [x.isoformat() for x in ends]), None, got)]
         return out
     if kind == "bound":
         _, text, x, side, alt, _ts = case
